@@ -60,17 +60,29 @@ def main():
         c.lens = [[c.rec_len]]
     # pass 1: warm-up = leading fills of the long run
     pe.run_models(cases, mode="por", W_of=lambda c: 0)
+    def real_only(c):
+        """no usable model of this wiring: exit 2 for the model, but the REAL runs are still judged against the property's
+        arithmetic, with the warm-up the strategy declares (or the Hold prefix of its long run)"""
+        acts = actions_of(c.rec) if c.rec else []
+        lead = 0
+        while lead < len(acts) and acts[lead] == 0:
+            lead += 1
+        c.w = c.idle if c.idle >= 0 else lead
+        c.real_only = True
+        c.wiring = None
+        c.lens = [[n] for n in sorted({0, 1, 2, c.w, c.w + 1, c.w + 3})]
+
     for c in cases:
         if c.error or c.tlc is None:
             if c.lens:
                 machinery.append("%s: %s" % (c.key(), c.error or "no model"))
-            c.lens = []
+                real_only(c)
             continue
         cov.add_tlc(c.tlc)
         t = c.terms.get((c.rec_len,), [None])[0]
         if t is None or not t["done"]:
             machinery.append("%s: long run does not terminate in the model" % c.key())
-            c.lens = []
+            real_only(c)
             continue
         toks = pe.sink_tokens(c.net, t)[0]
         w = 0
@@ -98,9 +110,10 @@ def main():
     for c in cases:
         if not c.lens:
             continue
-        if c.error:
+        if c.error or getattr(c, "real_only", False):
             # no model of this wiring: exit 2 for the model - the action count of the REAL runs is still a verdict
-            machinery.append("%s: %s" % (c.key(), c.error))
+            if c.error:
+                machinery.append("%s: %s" % (c.key(), c.error))
             for lv in c.lens:
                 real = c.real.get((lv[0],))
                 if real is None or real.get("deadlock") or real.get("crash"):
